@@ -32,6 +32,14 @@ Proof.
 Qed.
 
 (* ---- median (doubled) ---- *)
+(* equal indices written differently, e.g. (n - 1) // 2 and n // 2 for odd n *)
+Ltac idx_unify :=
+  repeat match goal with
+  | |- context[item ?s ?a] =>
+      match goal with
+      | |- context[item s ?b] => tryif constr_eq a b then fail else (replace a with b by (Z.div_mod_to_equations; lia))
+      end
+  end.
 Lemma gen_median_eq seq key : key [] = 0 -> gen_median seq key = median2 (map key seq).
 Proof.
   intro K0.
@@ -39,7 +47,7 @@ Proof.
         | unfold gen_median, median2; gnorm;
           rewrite ?(key_py_nth key _ _ K0), ?sorted_key_map, ?zlen_map;
           pose proof (median_middle_le (map key seq)) as M; cbv zeta in M; rewrite ?zlen_map in M; unfold wvals in *;
-          ifs_solve ].
+          ifs_solve; idx_unify; first [ reflexivity | lia ] ].
 Qed.
 
 Lemma gen_median_item seq obj :
@@ -160,7 +168,7 @@ Lemma gen_sortNDHelperB_eq fuel : forall best worst obj front,
 Proof.
   first [ intros; reflexivity
         | induction fuel as [|fu IH]; intros best worst obj front; [reflexivity|];
-          cbn [gen_sortNDHelperB helperB]; gnorm; rewrite ?gen_sweepB_eq, ?gen_splitB_eq;
+          cbn [gen_sortNDHelperB helperB]; gnorm; rewrite ?gen_sweepB_eq, ?gen_splitB_eq, ?zmin_list_map_key, ?zmax_list_map_key;
           same_ifs; hB_branch IH ].
 Qed.
 
@@ -207,7 +215,7 @@ Proof.
           set (pf := fold_left _ _ _);
           destruct ffo; cbn [negb];
           [ now rewrite ?py_nth_0_nth
-          | first [ apply (for_loop_log_cut k pf 0 1 _ LFronts eq_refl) with (pre := []) (suf := pf)
-                  | apply (for_loop_log_cut k pf 1 0 _ LFronts eq_refl) with (pre := []) (suf := pf) ];
-            [intros; gnorm; ifs_solve | reflexivity] ] ].
+          | first [ eapply (for_loop_log_cut k pf 0 1 _ _ LFronts eq_refl) with (pre := []) (suf := pf)
+                  | eapply (for_loop_log_cut k pf 1 0 _ _ LFronts eq_refl) with (pre := []) (suf := pf) ];
+            [solve [intros; gnorm; ifs_solve] | solve [intros; cbv beta; lia] | reflexivity] ] ].
 Qed.
